@@ -5,10 +5,10 @@ EXTENDS TMMerkle, TraceKit
 
 Trace == LoadTrace("trace.ndjson")
 
-VARIABLES l, data, slots, viol, drift
-vars == <<l, data, slots, viol, drift>>
+VARIABLES l, data, hdr, slots, viol, drift
+vars == <<l, data, hdr, slots, viol, drift>>
 
-Init == l = 1 /\ data = << >> /\ slots = << >> /\ viol = {} /\ drift = {}
+Init == l = 1 /\ data = << >> /\ hdr = GenuineHeader(<< >>) /\ slots = << >> /\ viol = {} /\ drift = {}
 
 \* ------------------------------------------------------------ proof cases
 StepVerify(e) ==
@@ -26,25 +26,28 @@ StepVerify(e) ==
                         class |-> IF alias THEN "shape_alias" ELSE "mut:" \o e.mut])
            \cup FailIf(e.proof = gen /\ e.item = e.leaves[e.pos + 1] /\ ~e.accepted,
                        [l |-> l, inv |-> "GenuineVerifies", class |-> "genuine_rejected"])
-     /\ UNCHANGED <<data, slots>>
+     /\ UNCHANGED <<data, hdr, slots>>
 
 \* ------------------------------------------------------------ part set
 StepReset(e) ==
   /\ data' = e.data
+  \* the header the part set was created from: the genuine one of the data unless the run crafted another
+  /\ hdr' = IF "hdr" \in DOMAIN e THEN e.hdr ELSE GenuineHeader(e.data)
   /\ slots' = [i \in 1..Len(e.data) |-> Nil]
   /\ drift' = drift \cup FailIf(e.root # Root(e.data) \/ e.total # Len(e.data),
                                 [l |-> l, what |-> "header differs from spec", spec |-> FALSE])
   /\ UNCHANGED viol
 
 StepAddPart(e) ==
-  LET hdr  == [total |-> Len(data), root |-> Root(data)]
-      r    == AddPart(hdr, slots, e.part)
+  LET r    == AddPart(hdr, slots, e.part)
       post == e.post.slots
       cls  == IF e.part.index < Len(data) /\ e.part.proof.index # e.part.index THEN "proof_index_ne_part_index"
               ELSE IF e.part.proof.total # Len(data) THEN "proof_total_ne_header_total"
+              ELSE IF e.part.proof.ibig # 0 \/ e.part.proof.big # 0 THEN "proof_position_high_bits"
               ELSE "other"
   IN /\ slots' = post
      /\ data' = data
+     /\ hdr' = hdr
      /\ drift' = drift \cup FailIf(r.slots # post \/ r.added # e.added \/ r.err # e.err,
                                    [l |-> l, what |-> "AddPart differs from spec", spec |-> r.added])
      /\ viol' = viol
@@ -58,6 +61,11 @@ StepAddPart(e) ==
            \cup FailIf(e.post.count # Count(post) \/ e.post.complete # Complete(post),
                        [l |-> l, inv |-> "CountExact", class |-> cls])
            \cup FailIf(e.added # (post # slots), [l |-> l, inv |-> "AddedIffChanged", class |-> cls])
+           \* admitted only if the presented path authenticates the bytes at (part.index, header.total) under the header root
+           \cup FailIf(e.added /\ ~PosProven(hdr, e.part), [l |-> l, inv |-> "AdmitOnlyProven", class |-> cls])
+           \* a set that completes hashes (its parts, its own total) to the root it was created for
+           \cup FailIf(Complete(post) /\ ~Complete(slots) /\ (Root(post) # hdr.root \/ e.post.root # hdr.root),
+                       [l |-> l, inv |-> "CompleteMatchesHeader", class |-> cls])
 
 \* several goroutines delivered genuine parts (indices e.delivered, with repeats) concurrently: the outcome
 \* must be that of a sequential order — for genuine parts every order gives the same result
@@ -67,6 +75,7 @@ StepConcurrent(e) ==
       post == e.post.slots
   IN /\ slots' = post
      /\ data' = data
+     /\ hdr' = hdr
      /\ drift' = drift
      /\ viol' = viol
            \cup FailIf(post # want, [l |-> l, inv |-> "PartBinds", class |-> "concurrent_delivery"])
@@ -75,6 +84,8 @@ StepConcurrent(e) ==
            \cup FailIf(e.added_count # Cardinality(idx), [l |-> l, inv |-> "AddedIffChanged", class |-> "concurrent_delivery"])
            \cup FailIf(e.post.complete /\ (post # data \/ e.post.reasm # "equal"),
                        [l |-> l, inv |-> "Reassembles", class |-> "concurrent_delivery"])
+           \cup FailIf(e.post.complete /\ e.post.root # hdr.root,
+                       [l |-> l, inv |-> "CompleteMatchesHeader", class |-> "concurrent_delivery"])
 
 Step ==
   /\ l <= Len(Trace)
@@ -89,7 +100,7 @@ Finish ==
   /\ l = Len(Trace) + 1
   /\ WriteVerdict("verdict.json", Len(Trace), viol, drift)
   /\ l' = l + 1
-  /\ UNCHANGED <<data, slots, viol, drift>>
+  /\ UNCHANGED <<data, hdr, slots, viol, drift>>
 
 Next == Step \/ Finish
 =============================================================================
